@@ -177,6 +177,17 @@ func vfCheckCrashImage(root string, seq int, img vfDirImage, conf *vfStoreConf, 
 			}
 		}
 	}
+	// the interrupted segment is loaded as a whole or not at all: all of its documents or none
+	foundInflight := 0
+	for _, id := range ids {
+		bv, bt, bm, _, _ := vfStoreFind(st, conf, id, inflight[id])
+		if bv || bt || bm {
+			foundInflight++
+		}
+	}
+	if foundInflight != 0 && foundInflight != len(ids) && !vfInflightSpansSegments {
+		return vfFail("crash image [%s] (files %v): %d of the %d documents of the interrupted flush are found — a damaged segment contributed part of its content", what, names, foundInflight, len(ids))
+	}
 	// a following Add + Flush must use a segment id larger than every id in the image's file names
 	maxBefore := vfMaxSegmentID(names)
 	probe := &vfStoreDoc{ID: 1<<30 + 900000, N: 900000, Vec: make([]float32, conf.Dim), Word: "probe"}
@@ -210,6 +221,10 @@ func vfCheckCrashImage(root string, seq int, img vfDirImage, conf *vfStoreConf, 
 	}
 	return nil
 }
+
+// set per case: the in-flight documents were spread over more than one memtable (several segments
+// are written by the interrupted flush, so "some but not all" is legitimate at segment granularity)
+var vfInflightSpansSegments bool
 
 func vfC10Run(c vfC10Case, ctx *vfCtx) *vfViolation {
 	root, err := os.MkdirTemp(vfEnv("VERIF_SCRATCH"), "c10-")
@@ -260,6 +275,7 @@ func vfC10Run(c vfC10Case, ctx *vfCtx) *vfViolation {
 		return v
 	}
 	everAdded[1<<30+900000] = true // the probe document of the per-image oracle
+	vfInflightSpansSegments = vfStoreMemtableCount(st) > 1
 
 	// the interrupted flush: snapshot at every hook point
 	type snap struct {
